@@ -11,10 +11,14 @@ IMPL_JOBS = 8
 RULE = ("scenarios over a fresh module/class per case: 1-2 targets of kind {module function, method, method patched on an "
         "instance, classmethod, staticmethod, plain attribute}, 1-4 patchers with replacement kind {default mock, plain function, "
         "classmethod(fn), staticmethod(fn), @asynq function, bound method, callable object, attribute-refusing callable, "
-        "non-callable, new_callable = MagicMock / callable class / attribute-refusing class / NonCallableMock} x behaviour "
+        "non-callable, new_callable = MagicMock / callable class / NonCallableMock / a callable that refuses attribute assignment "
+        "with AttributeError (__slots__), TypeError (frozen __setattr__, immutable builtin type) or RuntimeError} x behaviour "
         "{returns, raises}, an op list of enters/exits (with-block, function decorator, several decorators stacked on one function, class decorator), start/stop/stopall, "
         "exits by exception, and probes that call through all four conventions.  Part 1: the full product target kind x "
-        "replacement kind x activation style x exit path as single blocks; part 2: random well-bracketed nestings and "
+        "replacement kind x activation style x exit path as single blocks; part 1b (reactivation): ONE patcher object activated "
+        "2-3 times in a row (a decorated function / method of a decorated class called again, start/stop/start, several with-blocks, "
+        "styles mixed), alone, inside another patch, with another patch in between or next to a second target; the object a "
+        "per-activation replacement (default mock, new_callable) installs is identified per activation; part 2: random well-bracketed nestings and "
         "sequences (mostly on one target); part 3 (malformed stream, ~12%): non-LIFO stops, double starts, stop without start, "
         "stopall under a with-block, a patcher nested in itself.  distinct = different (targets, patchers, op list); "
         "non-trivial = at least one activation with a probe inside it and one after it")
@@ -27,18 +31,26 @@ ASSUMPTIONS = ["'well-bracketed' = the stack discipline of Mock wb: every enter/
                "for other orders (malformed stream) only model/implementation agreement is checked, as unittest.mock itself does not restore then",
                "classmethod(...) / staticmethod(...) replacements are only installed on attributes fetched through a class",
                "a replacement made by new_callable that is callable but refuses attribute assignment cannot get .asynq/.asyncio: "
-               "the repaired code refuses the patch (AttributeError) and leaves the original in place",
+               "the patch is refused (the replacement's own AttributeError / TypeError / RuntimeError is re-raised) and the original is left in place",
+               "a default mock / new_callable product is a new object on every activation of a patcher; 'the replacement' of an activation is "
+               "the object that activation installed, not the one an earlier activation of the same patcher installed",
                "received arguments: the given arguments, preceded by the bound instance/class exactly when the descriptor protocol binds "
                "the replacement (plain function or @asynq function fetched through an instance, classmethod object)"]
 EXPLANATION = ("Mock.v models the attribute store, every _patch object's saved original, _active_patches, _maybe_wrap_new's "
                "classification and the dispatch of the four calling conventions on the installed object; theorems: C19_restored "
                "(all well-bracketed op lists, any number of targets/patchers), C19_conventions_reach_replacement (whole product, "
-               "argument type polymorphic), C19_noncallable_as_is, C19_maybe_wrap_new_spec.")
+               "argument type polymorphic), C19_noncallable_as_is, C19_maybe_wrap_new_spec, C19_enter_refusal (any refusal exception: "
+               "state untouched, exception re-raised), C19_reactivation_fresh/_same + C19_probe_reaches_current (a re-activated patcher "
+               "installs a new per-activation object and every convention reaches the object in place now).")
 
 TKS = ["TModFn", "TMethod", "TInstMethod", "TClassmethod", "TStaticmethod", "TAttr"]
 RKS = ["RDefault", "RFunc", "RClassmethod", "RStaticmethod", "RAsynqFn", "RBound", "RCallableObj", "RSlotsObj",
-       "RNonCallable", "RNcMock", "RNcObj", "RNcSlots", "RNcNonCallable"]
+       "RNonCallable", "RNcMock", "RNcObj", "RNcSlots", "RNcNonCallable", "RNcFrozen", "RNcType", "RNcRaiser"]
 NONCALLABLE = ("RNonCallable", "RNcNonCallable")
+# made by unittest.mock on every activation (new is DEFAULT) vs. the one object given as new=
+PER_ACTIVATION = ("RDefault", "RNcMock", "RNcObj", "RNcSlots", "RNcNonCallable", "RNcFrozen", "RNcType", "RNcRaiser")
+# callable products of new_callable that refuse `obj.asynq = ...` (AttributeError / TypeError / TypeError / RuntimeError)
+REFUSING = ("RNcSlots", "RNcFrozen", "RNcType", "RNcRaiser")
 STYLES = ["SWith", "SDecor", "SDecorCls", "SDecorStack", "StartStop", "StartStopAll"]
 
 
@@ -62,8 +74,8 @@ def open_close(p, style, exc):
     return [{"OStart": [p]}], [{"OStopAll": [B(exc)]}]
 
 
-def mk(tks, ps, ops, api=None, **meta):
-    c = {"tks": tks, "ps": [list(p) for p in ps], "ops": ops, "api": api or ["object"] * len(ps), "meta": meta}
+def mk(tks, ps, ops, api=None, reuse=True, **meta):
+    c = {"tks": tks, "ps": [list(p) for p in ps], "ops": ops, "api": api or ["object"] * len(ps), "reuse": bool(reuse), "meta": meta}
     c["tree"] = [tks, [{"": list(p)} for p in ps], ops]
     return c
 
@@ -73,7 +85,7 @@ def model_input(c):
 
 
 def canon(c):
-    return json.dumps([c["tks"], c["ps"], c["ops"], c.get("api")], sort_keys=True)
+    return json.dumps([c["tks"], c["ps"], c["ops"], c.get("api"), c.get("reuse", True)], sort_keys=True)
 
 
 def _args(rng):
@@ -108,7 +120,7 @@ def product_cases(rng, both_exits, both_apis):
 def _pick_rk(rng, tk):
     while True:
         rk = rng.choice(RKS if rng.random() < 0.8 else ["RDefault", "RFunc", "RBound", "RCallableObj"])
-        if compat(tk, rk) and not (rk == "RNcSlots" and rng.random() < 0.7):
+        if compat(tk, rk) and not (rk in REFUSING and rng.random() < 0.7):
             return rk
 
 
@@ -143,7 +155,7 @@ def nested_case(rng):
                 # only with-style blocks may be opened under a group that stopall will close
                 body = seq(open_ps + grp, True, depth + 1) if depth < 3 else probes()
             elif style == "SDecor" and len(free) > 1 and rng.random() < 0.5:
-                grp = [p] + [q for q in free if q != p and ps[q][1] != "RNcSlots"][:rng.choice([1, 1, 2])]
+                grp = [p] + [q for q in free if q != p and ps[q][1] not in REFUSING][:rng.choice([1, 1, 2])]
                 o = [{"OEnter": [q, "SDecor" if i == 0 else "SDecorStack"]} for i, q in enumerate(grp)]
                 cl = [{"OExit": [q, "SDecor" if i == 0 else "SDecorStack", B(exc)]} for i, q in reversed(list(enumerate(grp)))]
                 body = seq(open_ps + grp, started_open, depth + 1) if depth < 3 else probes()
@@ -155,12 +167,12 @@ def nested_case(rng):
             ops += o + (probes() or [{"OProbe": [ps[p][0], _args(rng)]}]) + body + cl + probes()
         return ops
     ops = seq([], False, 0) + [{"OProbe": [t, _args(rng)]} for t in range(ntk)]
-    return mk(tks, ps, ops, [rng.choice(["patch", "object"]) for _ in ps], part="nested")
+    return mk(tks, ps, ops, [rng.choice(["patch", "object"]) for _ in ps], reuse=rng.random() < 0.7, part="nested")
 
 
 def malformed_case(rng):
     tks = [rng.choice(TKS)]
-    kinds = ["RDefault", "RFunc", "RBound", "RCallableObj", "RNonCallable", "RAsynqFn"]
+    kinds = ["RDefault", "RFunc", "RBound", "RCallableObj", "RNonCallable", "RAsynqFn", "RNcObj", "RNcFrozen"]
     nps = rng.choice([2, 3])
     ps = [(0, rng.choice(kinds), "BRet") for _ in range(nps)]
     shape = rng.choice(["nonlifo", "double-start", "stop-unstarted", "stopall-under-with", "self-nested", "random"])
@@ -202,16 +214,73 @@ def malformed_case(rng):
             q, sty = stack.pop()
             ops.append({"OExit": [q, sty, "false"]})
         ops.append(pr())
-    return mk(tks, ps, ops, None, part="malformed", shape=shape)
+    return mk(tks, ps, ops, None, reuse=rng.random() < 0.7, part="malformed", shape=shape)
+
+
+REACT_STYLES = ["SWith", "SDecor", "SDecorCls", "StartStop", "StartStopAll"]
+
+
+def reactivation_case(rng, tk, rk, styles, wrap=None):
+    """ONE patcher object (patcher 0) activated len(styles) times in a row, a probe inside and after each activation.
+    wrap: None | "inside" (the whole run sits inside a with-block of a second patcher on the same target) |
+    "between" (a second patcher is activated and closed between the activations) | "other-target"."""
+    beh = "BRaise" if rng.random() < 0.2 else "BRet"
+    tks, ps = [tk], [(0, rk, beh)]
+    if wrap in ("inside", "between"):
+        ps.append((0, rng.choice(["RDefault", "RFunc", "RCallableObj", "RNcObj"]), "BRet"))
+    elif wrap == "other-target":
+        tks = [tk, rng.choice(TKS)]
+        ps.append((1, rng.choice(["RDefault", "RCallableObj"]), "BRet"))
+    ops = [{"OProbe": [0, _args(rng)]}] if rng.random() < 0.5 else []
+    for i, style in enumerate(styles):
+        exc = rng.random() < 0.3
+        o, cl = open_close(0, style, exc)
+        ops += o + [{"OProbe": [0, _args(rng)]}]
+        if wrap == "other-target" and rng.random() < 0.5:
+            ops += [{"OEnter": [1, "SWith"]}, {"OProbe": [1, _args(rng)]}, {"OProbe": [0, _args(rng)]}, {"OExit": [1, "SWith", "false"]}]
+        ops += cl + [{"OProbe": [0, _args(rng)]}]
+        if wrap == "between" and i + 1 < len(styles):
+            st2 = rng.choice(["SWith", "SDecor", "StartStop"])
+            o2, cl2 = open_close(1, st2, rng.random() < 0.3)
+            ops += o2 + [{"OProbe": [0, _args(rng)]}] + cl2
+    if wrap == "inside":
+        # stopall would also end a started outer patcher, so the outer one is a with-block
+        ops = [{"OEnter": [1, "SWith"]}, {"OProbe": [0, _args(rng)]}] + ops + [{"OExit": [1, "SWith", B(rng.random() < 0.3)]}, {"OProbe": [0, _args(rng)]}]
+    return mk(tks, ps, ops, [rng.choice(["patch", "object"]) for _ in ps], reuse=rng.random() < 0.75,
+              part="reactivation", styles=list(styles), wrap=wrap)
+
+
+def reactivation_cases(rng, full):
+    out = []
+    for tk in TKS:
+        for rk in RKS:
+            if not compat(tk, rk):
+                continue
+            if full:
+                for s1 in REACT_STYLES:
+                    for s2 in REACT_STYLES:
+                        out.append(reactivation_case(rng, tk, rk, [s1, s2]))
+                for wrap in ("inside", "between", "other-target"):
+                    for _ in range(3):
+                        out.append(reactivation_case(rng, tk, rk, [rng.choice(REACT_STYLES) for _ in range(rng.choice([2, 3]))], wrap))
+            else:
+                s = rng.choice(REACT_STYLES)
+                out.append(reactivation_case(rng, tk, rk, [s, s] if rng.random() < 0.5 else [s, rng.choice(REACT_STYLES)]))
+                if rk in PER_ACTIVATION and rk not in REFUSING:
+                    out.append(reactivation_case(rng, tk, rk, [rng.choice(REACT_STYLES) for _ in range(rng.choice([2, 3]))],
+                                                 rng.choice([None, "inside", "between", "other-target"])))
+    return out
 
 
 def gen_cases(rng, tier):
     if tier == "quick":
         cs = product_cases(rng, False, False)
+        cs += reactivation_cases(rng, False)
         cs += [nested_case(rng) for _ in range(170)]
         cs += [malformed_case(rng) for _ in range(70)]
     else:
         cs = product_cases(rng, True, True)
+        cs += reactivation_cases(rng, True)
         cs += [nested_case(rng) for _ in range(8000)]
         cs += [malformed_case(rng) for _ in range(1500)]
     return cs
@@ -232,6 +301,16 @@ CORPUS = [
     # new_callable (default autospec) and an attribute-refusing product of new_callable
     _blk("TModFn", "RNcMock", "SWith", True), _blk("TMethod", "RNcObj", "StartStopAll", False),
     _blk("TModFn", "RNcSlots", "SWith", False), _blk("TModFn", "RNcSlots", "StartStop", False),
+    # the replacement refuses .asynq with a TypeError (frozen __setattr__ / immutable builtin type): with-block, start()
+    _blk("TMethod", "RNcFrozen", "SWith", False), _blk("TStaticmethod", "RNcType", "StartStopAll", False),
+    # ONE patcher object activated twice (per-activation default mock): a decorated function called twice,
+    # start/stop/start, two with-blocks
+    mk(["TMethod"], [(0, "RDefault", "BRet")],
+       [{"OEnter": [0, "SDecor"]}, {"OProbe": [0, [1]]}, {"OExit": [0, "SDecor", "false"]}, {"OProbe": [0, [2]]},
+        {"OEnter": [0, "SDecor"]}, {"OProbe": [0, [3]]}, {"OExit": [0, "SDecor", "false"]}, {"OProbe": [0, [4]]}], ["object"], corpus=True),
+    mk(["TModFn"], [(0, "RNcObj", "BRet")],
+       [{"OStart": [0]}, {"OProbe": [0, [1]]}, {"OStop": [0, "false"]}, {"OStart": [0]}, {"OProbe": [0, [2]]}, {"OStop": [0, "false"]},
+        {"OEnter": [0, "SWith"]}, {"OProbe": [0, []]}, {"OExit": [0, "SWith", "true"]}, {"OProbe": [0, [3]]}], ["patch"], corpus=True),
     # nested + sequential on one target, exits by exception, one stopall for two starts
     mk(["TMethod"], [(0, "RFunc", "BRet"), (0, "RDefault", "BRaise"), (0, "RBound", "BRet")],
        [{"OEnter": [0, "SWith"]}, {"OProbe": [0, [1]]}, {"OEnter": [1, "SDecor"]}, {"OProbe": [0, [2, 3]]}, {"OExit": [1, "SDecor", "true"]},
@@ -280,7 +359,8 @@ def compare(c, m, io):
 
 def distribution(cases):
     d = {"part": {}, "target_kind": {}, "replacement_kind": {}, "style": {}, "exit_by_exception": 0, "ops_len": {},
-         "max_nesting": {}, "two_targets": 0, "behaviour_raise": 0}
+         "max_nesting": {}, "two_targets": 0, "behaviour_raise": 0, "max_activations_of_one_patcher": {},
+         "reactivated_per_activation_replacement": 0, "refusing_replacement_activations": 0, "redecorate_each_time": 0}
     for c in cases:
         part = c.get("meta", {}).get("part", "corpus")
         d["part"][part] = d["part"].get(part, 0) + 1
@@ -291,8 +371,14 @@ def distribution(cases):
             d["replacement_kind"][p[1]] = d["replacement_kind"].get(p[1], 0) + 1
             d["behaviour_raise"] += p[2] == "BRaise"
         depth = mx = 0
+        acts = {}
+        d["redecorate_each_time"] += not c.get("reuse", True)
         for o in c["ops"]:
             n, a = next(iter(o.items()))
+            if n in ("OEnter", "OStart"):
+                acts[a[0]] = acts.get(a[0], 0) + 1
+                if 0 <= a[0] < len(c["ps"]) and c["ps"][a[0]][1] in REFUSING:
+                    d["refusing_replacement_activations"] += 1
             if n == "OEnter":
                 d["style"][a[1]] = d["style"].get(a[1], 0) + 1
             elif n == "OStart":
@@ -312,6 +398,10 @@ def distribution(cases):
         bk = "1-5" if L <= 5 else "6-10" if L <= 10 else "11-20" if L <= 20 else "21+"
         d["ops_len"][bk] = d["ops_len"].get(bk, 0) + 1
         d["max_nesting"][str(mx)] = d["max_nesting"].get(str(mx), 0) + 1
+        ma = str(max(acts.values()) if acts else 0)
+        d["max_activations_of_one_patcher"][ma] = d["max_activations_of_one_patcher"].get(ma, 0) + 1
+        d["reactivated_per_activation_replacement"] += any(
+            k > 1 and c["ps"][p][1] in PER_ACTIVATION and c["ps"][p][1] not in REFUSING for p, k in acts.items() if 0 <= p < len(c["ps"]))
     return d
 
 
@@ -339,14 +429,19 @@ def monitors(c, io, build):
     def orig_slot(t):
         return "None" if tks[t] == "TInstMethod" else {"Some": [{"OOrig": [t]}]}
 
-    stack = []          # open patchers, innermost last: (p, started)
+    stack = []          # open patchers, innermost last: (p, started, which activation of p)
     failed = set()      # patchers whose activation failed and whose exit the runner still issues
+    nact = {}           # patcher -> successful activations so far
     wellformed = True
 
+    def new_id(p, g):
+        """the object activation g of patcher p installs: a per-activation replacement is a new object each time"""
+        return {"ONew": [p, g if ps[p][1] in PER_ACTIVATION else 0]}
+
     def expected(t):
-        for p, _ in reversed(stack):
+        for p, _, g in reversed(stack):
             if ps[p][0] == t:
-                return {"Some": [{"ONew": [p]}]}
+                return {"Some": [new_id(p, g)]}
         return orig_slot(t)
 
     def check_slots(k, clause, what):
@@ -357,7 +452,9 @@ def monitors(c, io, build):
             want = expected(t)
             if got != want:
                 kind = ("original-not-back" if want == orig_slot(t) else "outer-replacement-not-back") if clause == "restored" else "not-installed"
-                found = "absent" if got == "None" else next(iter(got["Some"][0])) if "Some" in got else "foreign-object"
+                found = "absent" if got == "None" else "foreign-object" if "Some" not in got else (
+                    "earlier-activation" if "ONew" in got["Some"][0] and "Some" in want and "ONew" in want["Some"][0]
+                    and got["Some"][0]["ONew"][0] == want["Some"][0]["ONew"][0] else next(iter(got["Some"][0])))
                 add(clause, "%s:%s:%s:found-%s" % (what, tks[t], kind, found),
                     "after op %d %s the own slot of target %d (%s) holds %s, expected %s" % (k, json.dumps(ops[k]), t, tks[t], json.dumps(got), json.dumps(want)))
                 return False
@@ -369,17 +466,18 @@ def monitors(c, io, build):
             break
         if n in ("OEnter", "OStart"):
             p = a[0]
-            if any(q == p for q, _ in stack):
+            if any(q == p for q, _, _ in stack):
                 wellformed = False
                 break
             t, rk, beh = ps[p]
             sty = a[1] if n == "OEnter" else "start"
             if _ok(res[k]):
-                stack.append((p, n == "OStart"))
+                stack.append((p, n == "OStart", nact.get(p, 0)))
+                nact[p] = nact.get(p, 0) + 1
                 if not check_slots(k, "installed", "%s:%s" % (sty, rk)):
                     return fs
             else:
-                if rk != "RNcSlots":
+                if rk not in REFUSING:
                     add("reach-replacement", "activation-raised:%s:%s:%s" % (rk, tks[t], sty),
                         "activating patcher %d (%s on %s, %s) raised %s" % (p, rk, tks[t], sty, json.dumps(res[k])))
                 if n == "OEnter":
@@ -393,10 +491,10 @@ def monitors(c, io, build):
                         return fs
         elif n in ("OExit", "OStop"):
             p = a[0]
-            if n == "OExit" and p in failed and not any(q == p for q, _ in stack):
+            if n == "OExit" and p in failed and not any(q == p for q, _, _ in stack):
                 failed.discard(p)
                 continue
-            if not stack or stack[-1] != (p, n == "OStop"):
+            if not stack or stack[-1][:2] != (p, n == "OStop"):
                 wellformed = False
                 break
             stack.pop()
@@ -409,7 +507,7 @@ def monitors(c, io, build):
         elif n == "OStopAll":
             while stack and stack[-1][1]:
                 stack.pop()
-            if any(s for _, s in stack):
+            if any(s for _, s, _ in stack):
                 wellformed = False
                 break
             what = "stopall:%s" % ("exception" if a[-1] == "true" else "normal")
@@ -423,9 +521,9 @@ def monitors(c, io, build):
             cur, cs = res[k]["RProbe"]
             ob = obs[k]
             active = None
-            for p, _ in reversed(stack):
+            for p, _, g in reversed(stack):
                 if ps[p][0] == t:
-                    active = p
+                    active, agen = p, g
                     break
             if active is None:
                 if tks[t] == "TAttr":
@@ -459,15 +557,18 @@ def monitors(c, io, build):
                     site = "replacement-not-called"
                 elif len(calls) > 1:
                     site = "called-%d-times" % len(calls)
-                elif calls[0][0] != {"ONew": [active]}:
-                    site = "reached-%s-instead" % next(iter(calls[0][0]))
+                elif calls[0][0] != new_id(active, agen):
+                    # the replacement of THIS activation: an earlier activation's object is not it
+                    site = ("reached-earlier-activation" if "ONew" in calls[0][0] and calls[0][0]["ONew"][0] == active
+                            else "reached-%s-instead" % next(iter(calls[0][0])))
                 else:
                     recv = calls[0][1]
                     extra = recv[:len(recv) - len(args)] if len(recv) >= len(args) else None
                     if extra is None or recv[len(extra):] != args or extra not in ([], [-100], [-200]):
                         site = "wrong-arguments"
                     else:
-                        want = ["raise", "VErr", active] if beh == "BRaise" else ["ret", ["ret", "new", active, [str(x) for x in recv]]]
+                        wid = new_id(active, agen)["ONew"]
+                        want = ["raise", "VErr", wid] if beh == "BRaise" else ["ret", ["ret", "new", wid, [str(x) for x in recv]]]
                         if cv["outcome"] != want:
                             site = "wrong-result-%s" % cv["outcome"][0] + ("-" + str(cv["outcome"][1]) if cv["outcome"][0] == "raise" else "")
                 if site:
@@ -495,8 +596,10 @@ def monitors(c, io, build):
 def shrink(c):
     tks, ps, ops, api = c["tks"], c["ps"], c["ops"], c.get("api")
 
+    reuse = c.get("reuse", True)
+
     def again(o):
-        return mk(tks, ps, o, api, shrunk=True)
+        return mk(tks, ps, o, api, reuse=reuse, shrunk=True)
     # drop one probe
     for i, o in enumerate(ops):
         if "OProbe" in o:
@@ -528,4 +631,6 @@ def shrink(c):
             yield again(ops[:i] + [{n: a[:-1] + ["false"]}] + ops[i + 1:])
     for i, p in enumerate(ps):
         if p[2] == "BRaise":
-            yield mk(tks, ps[:i] + [[p[0], p[1], "BRet"]] + ps[i + 1:], ops, api, shrunk=True)
+            yield mk(tks, ps[:i] + [[p[0], p[1], "BRet"]] + ps[i + 1:], ops, api, reuse=reuse, shrunk=True)
+    if not reuse:
+        yield mk(tks, ps, ops, api, reuse=True, shrunk=True)
